@@ -27,7 +27,7 @@ var AllScenarios = func() []Scenario {
 	pqs = append(pqs, pq{0, 1, 0}, pq{0, 3, 0})
 	var out []Scenario
 	for _, bump := range []bool{false, true} {
-		for l := 0; l <= 4; l++ {
+		for l := 0; l <= 6; l++ {
 			for v := 0; v <= 1; v++ {
 				for e := 0; e <= 2; e++ {
 					for _, x := range pqs {
@@ -83,7 +83,7 @@ func ParseInfo(s string) Info {
 }
 
 func (w *World) Info() Info {
-	in := Info{Terminal: true, Byz: w.Cfg.Byz, NCerts: len(w.Certs)}
+	in := Info{Terminal: true, Byz: w.Cfg.Byz, NCerts: len(w.CertBlocks())}
 	var rh, round uint64
 	for i, n := range w.Nodes {
 		if w.Honest(i) && w.Live(i) {
@@ -120,7 +120,7 @@ func OpsFor(in Info, reduced bool) []int {
 		}
 		if reduced {
 			// the reduced alphabet keeps one representative per qualitatively different round outcome
-			if s.V != 0 || s.E == 1 || s.L == 3 {
+			if s.V != 0 || s.E == 1 {
 				continue
 			}
 			if s.L == 4 != EquivocationProfile && s.L != 0 {
@@ -145,7 +145,10 @@ func OpsFor(in Info, reduced bool) []int {
 		if s.L > 0 && leader != in.Byz {
 			continue
 		}
-		if s.L >= 1 && s.L <= 3 && s.L-1 >= in.NCerts {
+		if s.L >= 1 && s.L <= 2 && s.L-1 >= in.NCerts {
+			continue
+		}
+		if s.L >= 5 && (s.L-5 >= in.NCerts || reduced) {
 			continue
 		}
 		if s.L > 0 && s.V > 0 {
